@@ -31,7 +31,30 @@ def mk_flt(x):
     return ('flt', x)
 
 
+# The value of an *auxiliary* field of a state type (a field that no observation accessor of the type reads, see
+# sa/layout.py): it stands for "some value that depends only on auxiliary data".  Everything computed from it is
+# auxiliary again; if it ever reaches a decided output the output term contains AUX and matches no reference.
+AUX = ('sym', '@aux')
+
+
+def has_aux(t):
+    if t == AUX:
+        return True
+    if not isinstance(t, tuple) or not t:
+        return False
+    k = t[0]
+    if k == 'op' or k == 'call':
+        return any(has_aux(a) for a in t[2])
+    if k == 'adt':
+        return any(has_aux(a) for a in t[3])
+    if k == 'tuple':
+        return any(has_aux(a) for a in t[1])
+    return False
+
+
 def op(name, *args):
+    if name != 'ref' and any(a == AUX for a in args):
+        return AUX
     return simplify_op(name, tuple(args))
 
 
